@@ -9,9 +9,9 @@ use crate::network::{TransportConnect, TransportListen};
 use mio::event::{Source};
 use mio::net::{TcpStream, TcpListener};
 
-use tungstenite::protocol::{WebSocket, Message};
-use tungstenite::{accept as ws_accept};
-use tungstenite::client::{client as ws_connect};
+use tungstenite::protocol::{WebSocket, WebSocketConfig, Message};
+use tungstenite::{accept_with_config as ws_accept};
+use tungstenite::client::{client_with_config as ws_connect};
 use tungstenite::handshake::{
     HandshakeError, MidHandshake,
     server::{ServerHandshake, NoCallback},
@@ -29,6 +29,16 @@ use std::ops::{DerefMut};
 /// Max message size for default config
 // From https://docs.rs/tungstenite/0.13.0/src/tungstenite/protocol/mod.rs.html#65
 pub const MAX_PAYLOAD_LEN: usize = 32 << 20;
+
+/// The websocket limits must match the declared [`MAX_PAYLOAD_LEN`]:
+/// by default, a single frame (and the adapter sends one frame per message) is limited to 16 MiB.
+fn ws_config() -> Option<WebSocketConfig> {
+    Some(
+        WebSocketConfig::default()
+            .max_message_size(Some(MAX_PAYLOAD_LEN))
+            .max_frame_size(Some(MAX_PAYLOAD_LEN)),
+    )
+}
 
 pub(crate) struct WsAdapter;
 impl Adapter for WsAdapter {
@@ -146,6 +156,10 @@ impl Remote for RemoteResource {
     }
 
     fn send(&self, data: &[u8]) -> SendStatus {
+        if data.len() > MAX_PAYLOAD_LEN {
+            return SendStatus::MaxPacketSizeExceeded
+        }
+
         let mut state = self.state.lock().expect(OTHER_THREAD_ERR);
         let deref_state = state.deref_mut();
         match deref_state {
@@ -186,7 +200,7 @@ impl Remote for RemoteResource {
                         return tcp_status;
                     }
                     let stream_backup = stream.clone();
-                    match ws_connect(url, stream) {
+                    match ws_connect(url, stream, ws_config()) {
                         Ok((web_socket, _)) => {
                             *state = RemoteState::WebSocket(web_socket);
                             PendingStatus::Ready
@@ -208,7 +222,7 @@ impl Remote for RemoteResource {
                 }
                 PendingHandshake::Accept(stream) => {
                     let stream_backup = stream.clone();
-                    match ws_accept(stream) {
+                    match ws_accept(stream, ws_config()) {
                         Ok(web_socket) => {
                             *state = RemoteState::WebSocket(web_socket);
                             PendingStatus::Ready
